@@ -289,6 +289,26 @@ example : loadFrom (fsOf exNamedLay) [] true [[], ['w', 's'], "tasks".toList, "t
 example : find (fsOf exNamedLay) [] true [[], ['w', 's'], "build".toList, dotdot, "tasks".toList, dotdot] "build".toList = .notFound ∧
     find (fsOf exNamedLay) [['w', 's'], "build".toList, "deep".toList] false [dotdot, dotdot] "build".toList = .notFound := by decide
 
+/-! ### collection names containing a dot
+
+Names are opaque `List Char`: nothing in the model looks inside a name (`pyFile name` appends `.py`, the package
+test is `name ∈ ls d ∧ d/name/__init__.py exists`), so every theorem above already covers a dotted collection name
+`a.b` (module `a.b.py`, package `a.b/`).  In particular `project_dir_rule` tells module from package by what `find`
+found, never by the name: the module `a.b.py` keeps its own directory as project directory. -/
+
+/-- `/ws/proj/a.b.py` (module) and `/ws/a.b/__init__.py` (package) -/
+def exDottedLay : Layout :=
+  [([], [['w', 's']]),
+   ([['w', 's']], ["proj".toList, "a.b".toList]),
+   ([['w', 's'], "a.b".toList], [initPy]),
+   ([['w', 's'], "proj".toList], ["a.b.py".toList, "deep".toList]),
+   ([['w', 's'], "proj".toList, "deep".toList], [])]
+
+example : loadFrom (fsOf exDottedLay) [] true [[], ['w', 's'], "proj".toList, "deep".toList] "a.b".toList =
+    .ok ⟨[['w', 's'], "proj".toList, "a.b.py".toList], [['w', 's'], "proj".toList], [['w', 's'], "proj".toList]⟩ ∧
+    loadFrom (fsOf exDottedLay) [] true [[], ['w', 's']] "a.b".toList =
+    .ok ⟨[['w', 's'], "a.b".toList, initPy], [['w', 's'], "a.b".toList], [['w', 's']]⟩ := by decide
+
 /-- a candidate that sits in the filesystem root: `/mycoll/__init__.py`, start `/p/q` -/
 def exRootLay : Layout :=
   [([], [['p'], "mycoll".toList]), (["mycoll".toList], [initPy]), ([['p']], [['q']]), ([['p'], ['q']], [])]
